@@ -96,11 +96,26 @@ def clause_a2(repo, chk):
             if not (isinstance(c, ast.Call) and isinstance(c.func, ast.Name) and c.func.id == "sorted"):
                 continue
             key = [k.value for k in c.keywords if k.arg == "key"]
-            if not key or not isinstance(key[0], ast.Lambda):
+            if not key:
                 continue
             lam = key[0]
-            arg = lam.args.args[0].arg
-            body = lam.body
+            if isinstance(lam, ast.Name):
+                # key given through a local: a nested def with a single return, or a lambda bound to a name
+                defs = [x for x in walk_local(f.node) if isinstance(x, ast.Assign) and isinstance(x.targets[0], ast.Name) and x.targets[0].id == lam.id and isinstance(x.value, ast.Lambda)]
+                quals = f.qual.split(".")
+                nested = [g for q, g in m.funcs.items() if any(q == ".".join(quals[:k]) + "." + lam.id for k in range(len(quals), 0, -1))]
+                if defs:
+                    lam = defs[-1].value
+                elif nested and len(nested[0].node.body) >= 1 and isinstance(nested[0].node.body[-1], ast.Return) and all(isinstance(x, ast.Expr) for x in nested[0].node.body[:-1]):
+                    lam = nested[0].node
+                else:
+                    continue
+            if isinstance(lam, ast.Lambda):
+                arg, body = lam.args.args[0].arg, lam.body
+            elif isinstance(lam, ast.FunctionDef):
+                arg, body = lam.args.args[0].arg, lam.body[-1].value
+            else:
+                continue
             uses_map = any(isinstance(x, ast.Subscript) and isinstance(x.slice, ast.Name) and x.slice.id == arg and norm_text(x.value) in ("order", "base_order") for x in ast.walk(body))
             if not uses_map:
                 continue
@@ -115,7 +130,10 @@ def clause_a2(repo, chk):
     f = repo.fn("tf_pwa/einsum.py::tensor_einsum_reduce_sum.args_it")
     trans = [x for x in walk_local(f.node) if isinstance(x, ast.Assign) and isinstance(x.targets[0], ast.Name) and x.targets[0].id == "trans"]
     tcall = [x for x in walk_local(f.node) if isinstance(x, ast.Call) and norm_text(x.func) == "tf.transpose"]
-    if not trans or not tcall or norm_text(tcall[0].args[1]) != "trans":
+    perm_arg = None
+    if tcall:
+        perm_arg = tcall[0].args[1] if len(tcall[0].args) > 1 else next((k.value for k in tcall[0].keywords if k.arg == "perm"), None)
+    if not trans or perm_arg is None or norm_text(perm_arg) != "trans":
         raise AnalysisError("tensor_einsum_reduce_sum.args_it: `trans = ...; tf.transpose(j, trans)` not found")
     tr = Translator(repo)
     bad = None
@@ -213,10 +231,19 @@ def clause_c(repo, chk):
                         for kk in n.keys:
                             if isinstance(kk, ast.Constant) and isinstance(kk.value, str) and isinstance(getattr(n, "ctx", None), type(None)):
                                 pass
-                    if isinstance(n, ast.Return) and isinstance(n.value, ast.Dict):
-                        for kk in n.value.keys:
-                            if isinstance(kk, ast.Constant) and isinstance(kk.value, str):
-                                keys.add(kk.value)
+                    if isinstance(n, ast.Return) and n.value is not None:
+                        rv = n.value
+                        if isinstance(rv, ast.Name):
+                            ds = [x.value for x in walk_local(f.node) if isinstance(x, ast.Assign) and isinstance(x.targets[0], ast.Name) and x.targets[0].id == rv.id]
+                            rv = ds[-1] if ds else rv
+                        if isinstance(rv, ast.Dict):
+                            for kk in rv.keys:
+                                if isinstance(kk, ast.Constant) and isinstance(kk.value, str):
+                                    keys.add(kk.value)
+                        elif isinstance(rv, ast.Call) and isinstance(rv.func, ast.Name) and rv.func.id == "dict":
+                            for kw in rv.keywords:
+                                if kw.arg:
+                                    keys.add(kw.arg)
         written[nm] = keys
     allw = set().union(*written.values()) if written else set()
     pre_names = set(written)
@@ -334,3 +361,7 @@ def run(repo, chk, tier):
     clause_c(repo, chk)
     clause_d(repo, chk)
     clause_e(repo, chk)
+    # a memoised value that depends on model state makes the cached strategy differ from eager evaluation after an update
+    from ..cacheown import check_memo_soundness
+
+    check_memo_soundness(repo, chk)
